@@ -169,13 +169,20 @@ CLAIMS = {
         'technique': 'Coq refinement proof (model error = stateless error specification, mutual induction) + selection theorems + exact '
                      'error comparison + first-failing-step oracle'},
     'C16': {
-        'text': 'PARTIAL. Proved for EVERY key (any byte list): the three unescape routines invert the three escapings '
-                '(C16_double_quoted_roundtrip, C16_single_quoted_roundtrip through the byte state machine, C16_dot_roundtrip) and the '
-                'escapings are injective (distinct keys never confused). Not proved: that the grammar rules consume exactly the escaped '
-                'text. Tie: keys from all Unicode planes, controls, escape-like sequences, near-miss siblings, 3 spellings x 5 path '
-                'positions vs direct map lookup and vs the model.',
+        'text': 'Proved for EVERY key (any list of code points): FROM THE PATH TEXT, the grammar regenerated from jsonpath.peg accepts '
+                'the bracket spellings $["k"] and $[\'k\'] (KeyDefs.key_path: quote and backslash escaped, controls as \\u00XX, all '
+                'other code points verbatim), the quoted-name rule consumes exactly the escaped text and Parse returns the single step '
+                'naming exactly k (C16_bracket_spelling_parses, by a big-step derivation in the PEG semantics: PegMono/PegEv/KeyParse); a '
+                'retrieval with that path on an object holding the member returns exactly that member and on an object without it '
+                'selects nothing (C16_member_addressable, C16_absent_key_selects_nothing, through the refinement theorem); the three '
+                'unescape routines invert the three escapings (C16_double_quoted_roundtrip, C16_single_quoted_roundtrip through the '
+                'byte state machine, C16_dot_roundtrip) and the escapings are injective (distinct keys never confused). PARTIAL for: '
+                'acceptance of the dot spelling and of names at inner positions, and the short escapes \\b \\t \\n \\f \\r. Tie: keys '
+                'from all Unicode planes, controls, escape-like sequences, near-miss siblings, 3 spellings x 5 path positions vs direct '
+                'map lookup and vs the model; the text of key_path itself is sent too (the driver confirms it is the extracted key_path).',
         'note': NOTE_COMMON + ' encoding/json string unquoting is modelled concretely in coq/Text.v.',
-        'technique': 'Coq codec round-trip proofs (induction, explicit fuel) + direct lookup oracle + correspondence'},
+        'technique': 'Coq proof from the path text (PEG big-step derivation + token replay + refinement) + codec round-trip proofs '
+                     '(induction, explicit fuel) + direct lookup oracle + correspondence'},
     'C18': {
         'text': 'PARTIAL. Proved: what a path selects does not depend on the text/connected-text fields of its nodes '
                 '(C18_values_text_independent, on the specification), so spellings parsed to trees equal up to texts select the same '
